@@ -40,6 +40,13 @@ THEOREMS = [
     "insertValues_all_or_nothing", "specInsertValues_failed",
 ]
 
+SQL_FIXED = [
+    "select f + m from t", "select m + f from t", "select f * m, m * f from t", "select f - m, m - f from t",
+    "select f / m, m / f from t", "select f + cast(i as decimal(8,2)) from t", "select cast(l as decimal(12,3)) * f from t",
+    "select s + f, f + i, l * f from t", "select m + i, s * m, m - l from t", "select f + 1.5, 2.5 * f, m + 1.5 from t",
+    "select s + i, i + l, s * l, l - s from t", "select s + 1, i + 3000000000, l + 1 from t",
+]
+
 # type-changing rewrite rules: the optimised plan (and the result) has another column type than
 # the bound plan (witness queries, replayed on every run)
 SQL_WITNESSES = [
@@ -347,7 +354,11 @@ def run(ck):
     sqlf = os.path.join(ck.work, "sql.txt")
     vlib.sh([vlib.harness_bin("c16"), "gensql", str(nsql), sqlf])
     gen_sqls = [l for l in open(sqlf).read().split("\n") if l.strip()]
-    sqls = [w for _, w in SQL_WITNESSES] + gen_sqls
+    # fixed queries of the type oracle, run on every seed after the witnesses (an index >= len(SQL_WITNESSES) is judged
+    # like a generated query): arithmetic between every pair of numeric column types in both operand orders —
+    # the seeded change c16e (DOUBLE op DECIMAL(p, s) typed DOUBLE by the planner, DECIMAL at run time) was caught
+    # by the generated stream with some seeds only
+    sqls = [w for _, w in SQL_WITNESSES] + SQL_FIXED + gen_sqls
     open(sqlf, "w").write("\n".join(sqls) + "\n")
     rc, out = vlib.sh([vlib.harness_bin("c16"), "runsql", sqlf, wd], timeout=3000)
     outs = [l for l in out.split("\n") if l.strip()]
